@@ -247,9 +247,11 @@ func isErrorReturn(r *ssa.Return) bool {
 		return false
 	}
 	// a phi/extract of an error that may be nil is not a definite error return
-	switch last.(type) {
-	case *ssa.Call, *ssa.MakeInterface:
+	switch x := last.(type) {
+	case *ssa.MakeInterface:
 		return true
+	case *ssa.Call:
+		return alwaysErrorCall(x, 0)
 	}
 	// return inside the true branch of `if last != nil`
 	blk := r.Block()
@@ -524,4 +526,54 @@ func replaceAllT(t Tmpl, from, to string) Tmpl {
 		}
 	}
 	return norm(out)
+}
+
+var alwaysErrMemo = map[*ssa.Function]int{} // 1 = always error, 2 = not
+
+// alwaysErrorCall: the call constructs an error (fmt.Errorf, errors.New, or a product
+// function all of whose returns are constructed errors).
+func alwaysErrorCall(c *ssa.Call, depth int) bool {
+	if c.Call.IsInvoke() {
+		return false
+	}
+	callee := c.Call.StaticCallee()
+	if callee == nil {
+		return false
+	}
+	switch callee.String() {
+	case "fmt.Errorf", "errors.New":
+		return true
+	}
+	if callee.Blocks == nil || depth > 4 {
+		return false
+	}
+	if m, ok := alwaysErrMemo[callee]; ok {
+		return m == 1
+	}
+	alwaysErrMemo[callee] = 2
+	res := callee.Signature.Results()
+	if res.Len() == 0 || !isErrorType(res.At(res.Len()-1).Type()) {
+		return false
+	}
+	all := true
+	for _, b := range callee.Blocks {
+		ret, ok := b.Instrs[len(b.Instrs)-1].(*ssa.Return)
+		if !ok {
+			continue
+		}
+		last := ret.Results[len(ret.Results)-1]
+		switch x := last.(type) {
+		case *ssa.MakeInterface:
+		case *ssa.Call:
+			if !alwaysErrorCall(x, depth+1) {
+				all = false
+			}
+		default:
+			all = false
+		}
+	}
+	if all {
+		alwaysErrMemo[callee] = 1
+	}
+	return all
 }
